@@ -28,6 +28,13 @@ Definition range_substr (line : list N) : list N :=
   if Nat.leb 9 (length line) then firstn (length line - 9) (skipn 4 line) else skipn 4 line.
 
 (* ---- header scan ---- *)
+(* the first line of the body of a normal diff: '<' or '>' and a space or a tab ("diff -T") *)
+Definition normal_first_line (line : list N) : bool :=
+  match line with
+  | c :: w :: _ => (N.eqb c 62 || N.eqb c 60) && is_whitespace w
+  | _ => false
+  end.
+
 Inductive looks := LKUnknown | LKUnified | LKNormal | LKContext.
 Definition looks_eqb (a b : looks) : bool :=
   match a, b with LKUnknown, LKUnknown | LKUnified, LKUnified | LKNormal, LKNormal | LKContext, LKContext => true | _, _ => false end.
@@ -160,7 +167,7 @@ Definition header_step (strip : Z) (st : hstate) (line : list N) : res (hstate +
         (* normal *)
         let '(r2, hk2) :=
           if fmt_unknown_or p1 FNormal then
-            if looks_eqb last LKNormal && (starts_with line (bs "> ") || starts_with line (bs "< ")) then
+            if looks_eqb last LKNormal && normal_first_line line then
               (Some (inr (mk (set_fmt (set_paths p1 [] [] (old_time p1) (new_time p1)) FNormal) LKUnknown hk1 (h_first st))), hk1)
             else let '(ok, hk') := parse_normal_range empty_hunk line in
                  if ok then (Some (inl (mk p1 LKNormal hk' lines)), hk') else (None, hk1)
